@@ -1,6 +1,6 @@
 (** C14 — origin re-announcements always refresh every receiver. *)
 From Coq Require Import List NArith Bool.
-From MM Require Import Model.Flood Model.FloodPreFix Proofs.FloodPreFixProofs Proofs.FloodBase Proofs.FloodOnce Proofs.FloodSeq Proofs.FloodConv Generated.C14 Generated.C15.
+From MM Require Import Model.Flood Model.FloodPreFix Proofs.FloodPreFixProofs Proofs.FloodBase Proofs.FloodOnce Proofs.FloodSeq Proofs.FloodConv Generated.C14 Generated.C15 Generated.C11.
 Import ListNotations.
 Local Open Scope N_scope.
 
@@ -62,9 +62,12 @@ Proof. exact announcement_reaches_everyone. Qed.
 Print Assumptions C14_announcement_refreshes_everyone.
 
 (** the run hypothesis holds for every schedule of quiet steps without
-    Forget / Advance *)
+    Forget / Advance in which no withdrawal of the same origin is handed over
+    ([nw_run], executable; a withdrawal removes the origin's CIDR routes
+    whatever their sequence, so a delayed one would undo the refresh) *)
 Theorem C14_quiet_run_without_expiry_steps : forall cf o sq ops s,
   Forall (quiet_op o) ops -> forallb (fun op => negb (expiry_op op)) ops = true ->
+  nw_run cf o s ops = true ->
   quiet_run cf o sq s ops.
 Proof. exact quiet_run_syntactic. Qed.
 Print Assumptions C14_quiet_run_without_expiry_steps.
@@ -96,7 +99,7 @@ Example C14_example_refresh_after_replay :
   map (fun e => (kind_code (e_kind e), e_id e, e_seq e, e_upd e)) (filter (fun e => e_origin e =? 0) (entries_of s 2))
   = [(0, 1, 3, 120); (3, 0, 3, 120)].
 Proof.
-  split; [apply quiet_run_syntactic; [unfold rf_ops; repeat (apply Forall_cons; [exact I|]); apply Forall_nil|reflexivity]|].
+  split; [apply quiet_run_syntactic; [unfold rf_ops; repeat (apply Forall_cons; [exact I|]); apply Forall_nil|reflexivity|reflexivity]|].
   split; [vm_compute; reflexivity|]. split; [vm_compute; reflexivity|].
   split; [|split; vm_compute; reflexivity].
   apply (conn_step 3 0 _ 1 2); [apply (conn_step 3 0 _ 0 1); [apply conn_origin; vm_compute; auto| |vm_compute; auto]| |vm_compute; auto];
@@ -161,3 +164,19 @@ Theorem C14_hop_limit_facts :
 Proof. repeat split; reflexivity. Qed.
 End HopFacts.
 Print Assumptions C14_hop_limit_facts.
+
+(** Withdrawals share the seen cache with announcements: the key of every
+    insert / lookup is (origin of the advertisement or withdrawal, its
+    sequence) -- never the relaying peer -- and nothing but the TTL cleanup
+    removes entries (same regenerated facts as in C11). *)
+Section SeenKeyFacts.
+Import String.
+Local Open Scope string_scope.
+Theorem C14_seen_key_facts :
+  gen_seen_key_fields = ["OriginAgent"; "Sequence"] /\
+  gen_seen_key_origin_arg = "originAgent" /\ gen_seen_key_sequence_arg = "sequence" /\
+  gen_withdraw_seen_key_origin_arg = "originAgent" /\ gen_withdraw_seen_key_sequence_arg = "sequence" /\
+  gen_only_cleanup_removes_seen_entries = true /\ gen_withdraw_origin_fresh_sequence_own_id = true.
+Proof. repeat split; reflexivity. Qed.
+End SeenKeyFacts.
+Print Assumptions C14_seen_key_facts.
